@@ -93,7 +93,9 @@ RT_LEMMAS = [j("specs.ldapmsg:" + n) for n in ("lemma_strs_enc_nth", "lemma_strs
                                                "lemma_octs_enc_nth", "lemma_octs_enc_end", "lemma_octs_enc_nonempty", "thm_rt_octs",
                                                "thm_rt_ava_filter", "thm_rt_bind_request_simple", "thm_rt_bind_request_sasl", "thm_rt_search_request_fixed", "thm_rt_control", "thm_rt_partial_attribute", "thm_rt_present",
                                                "lemma_fold_skip", "lemma_fold_hit")] + \
-            [dict(j("specs.ldapmsg:thm_rt_ext_match"), part=[k, 6]) for k in range(6)]
+            [dict(j("specs.ldapmsg:thm_rt_ext_match"), part=[k, 6]) for k in range(6)] + \
+            [j("specs.ldapmsg:" + n) for n in ("lemma_sel_skip", "lemma_sel_run", "lemma_fold_skip_run")] + \
+            [dict(j("specs.ldapmsg:thm_rt_substrings"), part=[k, 3]) for k in range(3)]
 _VD_NOTE = ("Proved for all octets (value-level postconditions over the X.690 denotation, which accepts every definite length form): both credential choices (SASL credentials present exactly when a UNIVERSAL primitive OCTET STRING follows "
             "the mechanism - anything else is an ignored trailing element), the four AttributeValueAssertion filter choices, `present`, extensibleMatch (rule / type / value as folds), substrings (type, initial, final) and the filter CHOICE dispatch by context tag number, the leading components of BindRequest (version, name), all fixed components of SearchRequest, "
             "Control (criticality DEFAULT FALSE recognised by UNIVERSAL 1, controlValue by UNIVERSAL 4 after it, anything else ignored) and the paged-results value, LDAPResult with its optional referral list, the URIs of SearchResultReference, the attribute selection of SearchRequest, PartialAttribute with its values (list items = contents of the elements, in order, as many as there are elements), and the optional context-tagged components of ExtendedRequest / BindResponse / ExtendedResponse as a fold over the element stream "
@@ -106,7 +108,7 @@ REGISTRY = {
                             "inlined without a contract of their own: ASN1Tag.universal_tag, ASN1Reader.__init__/__bool__, ASN1Writer.__init__/__enter__/push_sequence/push_set (executed symbolically at every call site)"]},
     "C01": {"jobs": VALUE_DECODERS + RT_LEMMAS, "native": "native_messages.py", "level": "other",
             "explanation": _VD_NOTE + "The encode side is C03's encoding relation. Round trip theorems (specs/ldapmsg.py, proved like any function): with the encoder's postcondition and the decoder's postcondition as hypotheses over the same octets, every decoded field equals the encoded one - "
-                           "for BindResponse, ExtendedResponse (hence SearchResultDone: LDAPResult alone), ExtendedRequest, BindRequest with either credential choice, the six fixed components of SearchRequest, the AttributeValueAssertion filter choices, `present` and extensibleMatch, Control, PartialAttribute, and every list of strings / octet strings (referrals, URIs of a SearchResultReference, attribute selection, attribute values: same length, same items); text fields modulo unutf8(utf8(t)) == t. "
+                           "for BindResponse, ExtendedResponse (hence SearchResultDone: LDAPResult alone), ExtendedRequest, BindRequest with either credential choice, the six fixed components of SearchRequest, the AttributeValueAssertion filter choices, `present`, extensibleMatch and substrings, Control, PartialAttribute, and every list of strings / octet strings (referrals, URIs of a SearchResultReference, attribute selection, attribute values: same length, same items); text fields modulo unutf8(utf8(t)) == t. "
                            "For the other message kinds, controls and filters the composition is the bounded evaluation: "
                            "Contract unpack(pack(m)) == m (reader exhausted, re-encoding identical; known controls may expose their raw value), evaluated over a stated bounded set of messages of all nine kinds. "
                            "The byte layer below (every TLV written is read back identically, all integers) is proved under C07; the per-message node-level contracts are not discharged deductively yet."},
